@@ -436,11 +436,25 @@ pub fn gen_dhcp_reply(src: &mut Src, env: &mut Env, msg: Option<u8>, proper: boo
         }
         opt(&mut b, 6, &d);
     }
-    if src.chance(1, 3) {
-        let t1 = if proper { lease / 2 } else { *src.pick(&[0u32, 1, lease, lease / 2, 0xffff_ffff]) };
-        let t2 = if proper { lease / 8 * 7 } else { *src.pick(&[0u32, 1, lease, lease / 8 * 7, 0xffff_ffff]) };
-        opt(&mut b, 58, &t1.to_be_bytes());
-        opt(&mut b, 59, &t2.to_be_bytes());
+    // T1 / T2: present together, alone or not at all, with values on both sides of the lease
+    // (choices are appended to the lists so that saved tapes keep their meaning; None = absent)
+    if if proper { src.chance(1, 3) } else { src.chance(1, 2) } {
+        let t1: Option<u32> = if proper {
+            Some(lease / 2)
+        } else {
+            *src.pick(&[Some(0u32), Some(1), Some(lease), Some(lease / 2), Some(0xffff_ffff), Some(lease.wrapping_add(1)), Some(lease.saturating_sub(1)), Some(lease.saturating_mul(2)), None])
+        };
+        let t2: Option<u32> = if proper {
+            Some(lease / 8 * 7)
+        } else {
+            *src.pick(&[Some(0u32), Some(1), Some(lease), Some(lease / 8 * 7), Some(0xffff_ffff), Some(lease.wrapping_add(1)), None, None, Some(lease / 4)])
+        };
+        if let Some(t1) = t1 {
+            opt(&mut b, 58, &t1.to_be_bytes());
+        }
+        if let Some(t2) = t2 {
+            opt(&mut b, 59, &t2.to_be_bytes());
+        }
     }
     if !proper {
         for _ in 0..src.usize(0, 3) {
